@@ -263,6 +263,10 @@ func (a *a16) visit(f *ssa.Function, via string) {
 			continue
 		}
 		for _, in := range b.Instrs {
+			if cv, ok := in.(*ssa.Convert); ok && allocatingStringConv(cv) {
+				a.r.Ob("A16", FnName(f)+"/conv:"+types.TypeString(cv.Type(), shortQual), a.p.Pos(cv.Pos()), false, true,
+					"string/[]byte conversion of "+descr(cv.X)+" on the fast path: the copy is heap-allocated whenever it exceeds the runtime's 32-byte stack buffer (the compiler's -m output does not list it)")
+			}
 			cc := callCommon(in)
 			if cc == nil {
 				continue
@@ -449,4 +453,38 @@ func ruleA16(r *Run, p *Prog) {
 func lineSpan(p *Prog, f *ssa.Function) int {
 	s, e := p.Fset.Position(f.Syntax().Pos()), p.Fset.Position(f.Syntax().End())
 	return e.Line - s.Line
+}
+
+// allocatingStringConv: string([]byte) / []byte(string) of a non-constant whose result is used as
+// a value (not just compared or used as a map key, the cases the compiler performs without copying).
+func allocatingStringConv(cv *ssa.Convert) bool {
+	from, to := cv.X.Type().Underlying(), cv.Type().Underlying()
+	isStr := func(t types.Type) bool { b, ok := t.(*types.Basic); return ok && b.Info()&types.IsString != 0 }
+	isBytes := func(t types.Type) bool { return isByteSlice(t) }
+	if !((isStr(from) && isBytes(to)) || (isBytes(from) && isStr(to))) {
+		return false
+	}
+	if _, isConst := cv.X.(*ssa.Const); isConst {
+		return false
+	}
+	for _, ref := range referrersOf(cv) {
+		switch x := ref.(type) {
+		case *ssa.BinOp:
+			switch x.Op {
+			case token.EQL, token.NEQ, token.LSS, token.GTR, token.LEQ, token.GEQ:
+				continue
+			}
+			return true
+		case *ssa.Lookup:
+			if x.Index == ssa.Value(cv) {
+				continue
+			}
+			return true
+		case *ssa.DebugRef:
+			continue
+		default:
+			return true
+		}
+	}
+	return false
 }
